@@ -388,10 +388,11 @@ pub fn run(tier: &str) -> i32 {
         ]
     } else {
         vec![
-            (Network::Regtest, 1, 5, vec![1], all.clone(), 3, vec![0, 1], 1),
-            (Network::Regtest, 2, 5, vec![1], all.clone(), 3, vec![0, 1], 1),
-            (Network::Regtest, 3, 5, vec![1, 2], all.clone(), 2, vec![0], 1),
-            (Network::Regtest, 2, 6, vec![1, 2], vec![BODY_CB, BODY_SHARED, BODY_SPEND_PARENT], 2, vec![0], 1),
+            (Network::Regtest, 1, 5, vec![1], all.clone(), 2, vec![0, 1], 1),
+            (Network::Regtest, 2, 5, vec![1], all.clone(), 2, vec![0], 1),
+            (Network::Regtest, 2, 4, vec![1], all.clone(), 3, vec![0, 1], 1),
+            (Network::Regtest, 3, 5, vec![1, 2], vec![BODY_CB, BODY_SHARED, BODY_SPEND_PARENT, BODY_SPEND_OLD], 2, vec![0], 1),
+            (Network::Regtest, 2, 6, vec![1, 2], vec![BODY_CB, BODY_SHARED, BODY_SPEND_PARENT], 1, vec![0], 1),
             (Network::Mainnet, 2, 4, vec![1, 2], all.clone(), 2, vec![0, 1], 1),
             (Network::Testnet, 1, 4, vec![1], all.clone(), 2, vec![0, 1], 1),
             (Network::Regtest, 2, 5, vec![1, 2], vec![BODY_CB], 0, vec![0, 1], 1),
